@@ -21,7 +21,97 @@ def field_assign_sites(F, adt, field):
     return out
 
 
+def guard_rule(ctx, F):
+    """C10.guard: which offered types write_shape accepts, decided over all pairs of type codes.  The tests the function makes
+    on the file's type and on the offered type (directly, through == / !=, or through private helpers followed into their
+    bodies) are evaluated for each of the 13 x 14 pairs (file type not null): a pair of different types must not satisfy the
+    tests of any accepting path, a pair of equal types must not satisfy those of a path returning the mismatch error."""
+    from .C03 import _ev
+    ctx.rule("C10.guard", "write_shape accepts a later shape exactly when its type is the file's: over all 13 x 14 pairs of type "
+                          "codes, no pair of different types satisfies the type tests of an accepting path and no pair of equal "
+                          "types those of a path returning the mismatch error", floor=2)
+    fs = F.inherent_method("writer::ShapeWriter", "write_shape")
+    codes = sorted((util.shapetype_discr(F) or {}).values())
+    if not fs or not codes:
+        ctx.missing("C10.guard", "ShapeWriter::write_shape / ShapeType")
+        return
+    f = fs[0]
+    site = ctx.site_of(F, f["def"])
+    try:
+        ps, _ = util.run_fn(F, f, summarise_pure=False,
+                            inline=lambda g2, t: any(x in mir.callee_decl(t) for x in ("shapetype", "ShapeType", "PartialEq")))
+    except absint.Unanalysable as e:
+        ctx.unanalysable("C10.guard", f["def"], str(e))
+        return
+    A = ('load', (('T', ('param', 1)), (('f', 'header'), ('f', 'shape_type'))))
+    name = {v: k for k, v in (util.shapetype_discr(F) or {}).items()}
+    wrong_accept, wrong_reject, undecided = None, None, 0
+    nacc = nrej = 0
+    for p in ps:
+        if p.status != 'return':
+            continue
+        acc = is_agg(p.ret, None, 'Ok')
+        rej = is_agg(p.ret, None, 'Err') and is_agg(agg_field(p.ret, '0'), None, 'MismatchShapeType')
+        if not acc and not rej:
+            continue
+        B = None
+        for t, c in p.cons:
+            for x in absint.subterms(t):
+                if isinstance(x, tuple) and x and x[0] == 'ret' and isinstance(x[-1], str) and x[-1].endswith('shapetype'):
+                    B = x
+        atoms = [(t, c) for t, c in p.cons if any(x == A or (B is not None and x == B) for x in absint.subterms(t))]
+        if B is None or not atoms:
+            if acc and any(t == ('discr', A) and c == 0 for t, c in p.cons):
+                continue                                   # the first write: nothing to compare with
+            if acc:
+                wrong_accept = wrong_accept or ("any", "any (the path tests neither type)")
+            continue
+        if acc:
+            nacc += 1
+        else:
+            nrej += 1
+        for a in codes:
+            if a == 0:
+                continue
+            for b in codes:
+                env = {A: a, B: b, ('discr', A): a, ('discr', B): b}
+                ok = True
+                for t, c in atoms:
+                    x = _ev(t, env)
+                    if x is None:
+                        ok = None
+                        break
+                    want = (x == c) if isinstance(c, int) else (x not in c[1]) if isinstance(c, tuple) and c and c[0] == 'not' else None
+                    if want is None:
+                        ok = None
+                        break
+                    if not want:
+                        ok = False
+                        break
+                if ok is None:
+                    undecided += 1
+                    break
+                if ok and acc and a != b and wrong_accept is None:
+                    wrong_accept = (name.get(a, a), name.get(b, b))
+                if ok and rej and a == b and wrong_reject is None:
+                    wrong_reject = (name.get(a, a), name.get(b, b))
+            else:
+                continue
+            break
+    ctx.ob("C10.guard", "no other type accepted", wrong_accept is None and undecided == 0 and nacc > 0,
+           "%d accepting later-write path(s): their type tests hold for equal types only" % nacc if wrong_accept is None and not undecided else
+           ("a %s is accepted into a file of %s" % (wrong_accept[1], wrong_accept[0]) if wrong_accept else
+            "%d path(s) whose type tests cannot be evaluated (fail closed)" % undecided), site=site, key="C10.guard|accept")
+    ctx.ob("C10.guard", "the same type is never refused", wrong_reject is None and nrej > 0,
+           "%d mismatch path(s): their type tests fail for equal types" % nrej if wrong_reject is None else
+           "a %s offered to a file of %s is refused as a mismatch" % (wrong_reject[1], wrong_reject[0]), site=site, key="C10.guard|reject")
+
+
 def run(ctx):
+    guard_rule(ctx, ctx.facts("default"))
+    ctx.delegate("C06", ["C06.concrete"], "C10.types",
+                 "the type a shape is offered as is its own: S::shapetype() names the variant of S for each of the 13 concrete types, "
+                 "so two different types never compare equal in the guard", floor=13)
     F = ctx.facts("default")
     ctx.rule("C10.first", "the first-write path stores S::shapetype() into the header's shape type; no other assignment to that "
                           "field exists in the crate (who-writes)", floor=2)
